@@ -417,7 +417,7 @@ func suiteRefactor(c *Ctx) error {
 
 // ---------------------------------------------------------------- C03 + C04
 
-var constTokenRe = regexp.MustCompile(`const\(("(?:[^"\\]|\\.)*"|-?[0-9]+)\)`)
+var constTokenRe = regexp.MustCompile(`const\(("(?:[^"\\]|\\.)*"|-?[0-9]+|true|false)\)`)
 
 // maskAbstractedLiterals replaces, in a KeepAllLiterals canonical IR, every string literal and every
 // integer literal outside the default policy's small range [-16, 16] by a placeholder.
@@ -426,6 +426,11 @@ func maskAbstractedLiterals(irText string) string {
 		body := tok[len("const(") : len(tok)-1]
 		if strings.HasPrefix(body, "\"") {
 			return "const(<str>)"
+		}
+		if body == "true" || body == "false" {
+			// DefaultLiteralPolicy.AbstractOtherTypes: constants that are neither strings nor integers
+			// (a test on constants kept in a variable is folded to such a constant) are abstracted
+			return "const(<other>)"
 		}
 		if n, err := strconv.ParseInt(body, 10, 64); err == nil && n >= -16 && n <= 16 {
 			return tok
@@ -573,7 +578,7 @@ func suiteCollide(c *Ctx) error {
 				c.Violate("C03", "C03/collision-keepall:"+ed[0], fmt.Sprintf("%s: %s changes the outputs but the fingerprints (all literals kept) are equal", name, ed[1]), rp)
 			}
 			// the documented exception of the default policy: P and Q that differ ONLY in literals it
-			// abstracts (strings, integers outside [-16,16]) - e.g. `31337 - 1` vs `1 - 31337`, folded by
+			// abstracts (strings, integers outside [-16,16], constants of other types such as a folded boolean) - e.g. `31337 - 1` vs `1 - 31337`, folded by
 			// the compiler to two big constants - may share a default-policy fingerprint (C02 demands
 			// it), and `sfw diff`, which fingerprints under that policy, calls them preserved
 			onlyAbstracted := maskAbstractedLiterals(keepP[name].CanonicalIR) == maskAbstractedLiterals(keepQ[name].CanonicalIR)
